@@ -123,8 +123,41 @@ def expected_outputs(tool, base):
     return {os.path.join(base, "side0", "ONE.BAS"): b"\xff\x00\x02\x00\x00", os.path.join(base, "side0", "TWO.TXT"): b"hello" * 100}
 
 
+TOOL_ID = {"moto_tar": 0, "moto_sdar": 1, "moto_fdar": 2}
+SPEC_ID = {"moto_tar": 0, "moto_sdar": 1, "moto_fdar": 1, "moto_nl": 2, "moto_prettier": 3, "moto_lst2bas": 4, "moto_bas2lst": 5}
+
+
+def model_cli(ctx, tool, argv, root):
+    """the Coq model's decision for an archiver command line: (status, [(kind, path)]) ; fs = the scratch tree"""
+    fs = []
+    for k, v in snapshot(root).items():
+        if v is not None:
+            fs.append([text_points(k), v])
+    st, fx = ctx.model.call("cli", TOOL_ID[tool], [text_points(a) for a in argv], fs)
+    return st, [(k, "".join(chr(c) for c in p)) for k, p in fx]
+
+
+def compare_model(ctx, tool, argv, root_before_snapshot_root, st):
+    """exit class and (for archivers) the set of paths written, model vs real; None when they agree"""
+    if tool in TOOL_ID:
+        mst, mfx = model_cli(ctx, tool, argv, root_before_snapshot_root)
+        if mst == -1:
+            return "unmodelled"
+        if mst != st:
+            return {"model status": mst, "real": st, "argv": argv}
+        return None
+    code = ctx.model.call("cli_parse", SPEC_ID[tool], [text_points(a) for a in argv])
+    if code == 2:
+        return "unmodelled"
+    want = {0: 0, 1: 2}.get(code)
+    if want is not None and want != st:
+        return {"model parse": code, "real status": st, "argv": argv}
+    return None
+
+
 def run_case(case, ctx):
     root = tempfile.mkdtemp(dir=ctx.tmp)
+    mroot = tempfile.mkdtemp(dir=ctx.tmp)
     try:
         tool, la, sc = case["tool"], case["launcher"], case["scenario"]
         bad = dis = None
@@ -132,6 +165,7 @@ def run_case(case, ctx):
         if sc == "help":
             before = snapshot(root)
             st, out, err = launch(tool, la, [case["variant"]], root)
+            dis = compare_model(ctx, tool, [case["variant"]], root, st)
             if st != 0 or "usage" not in out.lower():
                 bad = {"--help": [st, out[:80], err[-200:]]}
             elif snapshot(root) != before:
@@ -151,7 +185,12 @@ def run_case(case, ctx):
                 shutil.copy(os.path.join(root, "good" + ext), os.path.join(root, "bad" + wrong))
                 argv = [act, "bad" + wrong] + (["one.bas"] if act in ("-c", "-r") else [])
             before = snapshot(root)
+            dis = compare_model(ctx, tool, argv, root, None)
             st, out, err = launch(tool, la, argv, root)
+            if isinstance(dis, dict) and dis.get("real") is None and "model status" in dis:
+                dis = None if dis["model status"] == st else dict(dis, real=st)
+            elif isinstance(dis, dict) and "model parse" in dis:
+                dis = None if {0: 0, 1: 2}.get(dis["model parse"]) == st else dict(dis, **{"real status": st})
             after = snapshot(root)
             if st == 0 or st == "timeout":
                 bad = {sc + " accepted": [argv, st, out[:100]]}
@@ -225,8 +264,13 @@ def run_case(case, ctx):
                         bad = {"add wrote": changed, "want": want, "into": bool(case.get("into"))}
                 else:
                     base = "out dir" if case.get("into") else os.path.dirname(rel)
+                    mst, mfx = model_cli(ctx, tool, ["-x"] + vf + into + [rel], root)
                     st, out, err = launch(tool, la, ["-x"] + vf + into + [rel], root)
                     after = snapshot(root)
+                    mpaths = sorted(os.path.normpath(p) for k, p in mfx if k == 0)
+                    rpaths = sorted(k for k in after if before.get(k) != after[k] and not k.endswith("/"))
+                    if mst != st or mpaths != rpaths:
+                        dis = {"extract model status/paths": [mst, mpaths[:4]], "real": [st, rpaths[:4]]}
                     want = expected_outputs(tool, base)
                     if st != 0:
                         bad = {"extract failed": [st, err[-300:]]}
@@ -251,10 +295,14 @@ def run_case(case, ctx):
                         elif again.get(victim) != want[next(iter(want))]:
                             bad = {"second extraction did not overwrite": victim}
         sig = [tool, la, sc] + ([str(case.get("into"))] if "into" in case else [])
+        skipped = dis == "unmodelled"
+        if skipped:
+            dis = None
         detail = {"disagreement": dis, "oracle": bad} if (dis or bad) else None
-        return CaseResult(dis is None, bad is None, detail, sig, sc != "help")
+        return CaseResult(dis is None, bad is None, detail, sig, sc != "help", skipped=skipped)
     finally:
         shutil.rmtree(root, ignore_errors=True)
+        shutil.rmtree(mroot, ignore_errors=True)
 
 
 def summarise(case):
